@@ -17,6 +17,13 @@ Contracts (one evaluation per file and contract, per paragraph for the paragraph
   region              VP -> top- or bottom-anchored region inside the safe area (preconditions see contracts/c09.py)
   iso6937-pairs / code-table   every diacritic+letter composition and every assigned single byte of the five tables
   sn-magnitude-invariance      the result does not depend on whether subtitle numbers are below or above 256
+  line-count          tf.line_count (stubbed by a symbolic n >= 1 in the proof tier) is >= 1 and within the oracle's row range
+
+Failure keys name the witness class.  A failing file is first compared with the oracle's result for TRANSFORMED inputs
+(comment flags cleared, leading 0x8F removed, orphaned cumulative sets removed, programme start 23 s): if a transformation
+explains every structural difference, the failure gets the key of that recognised misreading (one key per root cause);
+otherwise the key is the contract-specific one (text-mismatch@cct=.., time-mismatch@DFC, style-fg, region-top-anchor, ...).
+The first witness of every key is shrunk (whole subtitles, configuration entries, single text-field bytes).
 """
 import io
 import itertools
@@ -464,50 +471,90 @@ def _orphan(spec):
   return False
 
 
-def check_file(data, cfg):
+STRUCTURAL = ("subtitle-set", "text-characters", "timing", "line-breaks")
+
+
+def _structural_failures(res):
+  return sum(1 for c in STRUCTURAL for v in res.get(c, []) if v is not None)
+
+
+def _without_orphan_sets(data, spec):
+  sns = set()
+  for p in spec["paragraphs"]:
+    ms = p["members"]
+    if len(ms) > 1 and ms[0].get("dropped") and any(not m.get("dropped") for m in ms[1:]):
+      sns |= {m["sn"] for m in ms}
+  out = bytearray(data[:S.GSI_SIZE])
+  for i in range(S.GSI_SIZE, len(data), S.TTI_SIZE):
+    if (data[i + 1] | (data[i + 2] << 8)) not in sns:
+      out += data[i:i + S.TTI_SIZE]
+  return bytes(out)
+
+
+def _mnr_shift_explains(spec, observed):
+  """the MNR error path of the reader sets the programme start to 23 (seconds) instead of the row count to 23"""
+  import copy
+  sp = copy.copy(spec)
+  sp["paragraphs"] = []
+  for p in spec["paragraphs"]:
+    q = dict(p)
+    q["members"] = []
+    for m in p["members"]:
+      m2 = dict(m)
+      if m2["begin"] is not None and m2["end"] is not None:
+        m2["begin"], m2["end"] = m2["begin"] - 23, m2["end"] - 23
+        m2["dropped"] = m2.get("dropped") or m2["begin"] < 0
+      q["members"].append(m2)
+    sp["paragraphs"].append(q)
+  return _structural_failures(evaluate_reading(sp, observed)[0]) == 0
+
+
+def check_file(data, cfg, _reduced=False):
   """all contracts on one file -> (evaluated: [contract], failures: [(contract, key, message)])"""
   evaluated, failures = [], []
   out = run_reader(data, cfg)
   spec0 = S.spec_stl(data, cfg, readings_for(data)[0])
   may_refuse = spec0["start"] is None or spec0["rows"] == "invalid"
   evaluated.append("no-exception")
+  gsi = S.parse_gsi(data[:S.GSI_SIZE])
   if out[0] == "raise":
     if may_refuse and isinstance(out[1], ValueError):
       return evaluated, failures
     if _orphan(spec0) and isinstance(out[1], AttributeError) and "NoneType" in str(out[1]):
       failures.append(("subtitle-set", ORPHAN_KEY, ORPHAN_TEXT + ": " + out[3]))
-      return evaluated, failures
-    if spec0["start"] is None:
+    elif spec0["start"] is None:
       failures.append(("no-exception", "invalid-tcp-error-path", "program_start_tc=TCP with a TCP field that is not a time code "
-                       f"({S.parse_gsi(data[:S.GSI_SIZE])['TCP']!r}): " + out[3]))
-      return evaluated, failures
-    if spec0["rows"] == "invalid":
+                       f"({gsi['TCP']!r}): " + out[3]))
+    elif spec0["rows"] == "invalid":
       failures.append(("no-exception", "invalid-mnr-error-path", "max_row_count=MNR with an MNR field that is not a number "
-                       f"({S.parse_gsi(data[:S.GSI_SIZE])['MNR']!r}): " + out[3]))
-      return evaluated, failures
-    failures.append(("no-exception", out[2], out[3]))
+                       f"({gsi['MNR']!r}): " + out[3]))
+    else:
+      failures.append(("no-exception", out[2], out[3]))
     return evaluated, failures
   observed = out[1]
   base = evaluate(data, cfg, observed)
+  if any(v is not None for c in STRUCTURAL + ("text-align", "region") for v in base[0].get(c, [])) and _orphan(base[2]) and not _reduced:
+    # attribute the failures to the orphaned cumulative set only if the file without that set satisfies every contract
+    ev2, f2 = check_file(_without_orphan_sets(data, base[2]), cfg, True)
+    if f2:
+      return ev2, f2
+    first = next((v for vals in base[0].values() for v in vals if v is not None), None)
+    return evaluated + [c for c, vals in base[0].items() for _ in vals], [("subtitle-set", ORPHAN_KEY, ORPHAN_TEXT + ": " + first[1])]
   best = (base[1], 0, (), base)
   if base[1]:
-    # recognised misreadings: compare the observation with the oracle's result for a transformed file
-    cands = [(name, tr(data)) for name, tr in HYPOTHESES]
-    cands = [(name, d2) for name, d2 in cands if d2 != data]
+    # recognised misreadings: compare the observation with the oracle's result for a transformed file; a misreading is accepted
+    # only if it leaves no structural failure (subtitle set, characters, lines, times) unexplained
+    names = [h[0] for h in HYPOTHESES]
+    cands = [name for name, tr in HYPOTHESES if tr(data) != data]
     for k in range(1, len(cands) + 1):
-      for combo in itertools.combinations(range(len(cands)), k):
+      for combo in itertools.combinations(cands, k):
         d2 = data
-        for i in combo:
-          d2 = HYPOTHESES[[h[0] for h in HYPOTHESES].index(cands[i][0])][1](d2)
+        for name in combo:
+          d2 = HYPOTHESES[names.index(name)][1](d2)
         r = evaluate(d2, cfg, observed)
-        if (r[1], k) < best[:2]:
-          best = (r[1], k, tuple(cands[i][0] for i in combo), r)
+        if _structural_failures(r[0]) == 0 and (r[1], k) < best[:2]:
+          best = (r[1], k, combo, r)
   res, n, spec = best[3]
-  gsi = S.parse_gsi(data[:S.GSI_SIZE])
-  if n and _orphan(spec):
-    first = next((v for vals in res.values() for v in vals if v is not None), None)
-    failures.append(("subtitle-set", ORPHAN_KEY, ORPHAN_TEXT + ": " + first[1]))
-    return evaluated + list(res), failures
   for name in best[2]:
     contract, text = HYP_TEXT[name]
     first = next((v for vals in base[0].values() for v in vals if v is not None), None)
@@ -518,7 +565,7 @@ def check_file(data, cfg):
       if v is None:
         continue
       key = v[0]
-      if spec["rows"] == "invalid" and contract in ("timing", "subtitle-set"):
+      if spec["rows"] == "invalid" and contract in ("timing", "subtitle-set") and _mnr_shift_explains(spec, observed):
         failures.append((contract, "invalid-mnr-error-path", "max_row_count=MNR with an MNR field that is not a number "
                          f"({gsi['MNR']!r}) shifts every subtitle: " + v[1]))
         continue
